@@ -231,6 +231,7 @@ func init() {
 				}
 				sc := sc
 				var last c14sOutcome
+				vsched.Stop = c.Expired
 				st := vsched.Explore(bound, 20000, func(prefix []int) *vsched.Exec {
 					ex, o := c14sRunOne(sc.Scenario, sc.Burst, prefix)
 					last = o
@@ -251,6 +252,9 @@ func init() {
 				c.Res.States += int64(st.Executions)
 				c.Res.Transitions += int64(st.Decisions)
 				c.Res.Traces += int64(st.Executions)
+				if st.TimedOut {
+					c.Inexhaustive("deadline reached inside the schedule exploration")
+				}
 				if st.Capped {
 					c.Inexhaustive(fmt.Sprintf("execution cap reached for %v", sc.Scenario))
 				}
